@@ -35,6 +35,21 @@ TMP="$(mktemp "$HERE/harness/.modtmp.XXXXXX")"
 sed "s#=> /repo#=> $REPO#" "$HERE/harness/go.mod" > "$TMP" && mv "$TMP" "$MODFILE"
 cp "$HERE/harness/go.sum" "$HERE/harness/go.verif.$TAG.sum" 2>/dev/null || true
 
+# In-package monitors (identifiers pinned by the repository's own tests),
+# injected with -overlay so that the repository is never written.
+export VERIF_INPKG_RESULT=""
+LOWER="$(printf '%s' "$ID" | tr 'A-Z' 'a-z')"
+if [ -f "$HERE/inpkg/${LOWER}_inpkg_test.go" ] && [ -z "${VERIF_REPLAY_KEY:-}" ]; then
+  OV="$(mktemp "${TMPDIR:-/var/tmp}/verif-ov.XXXXXX")"
+  export VERIF_INPKG_OUT="$VERIF_OUT/logs/$ID.inpkg.json"
+  rm -f "$VERIF_INPKG_OUT"
+  printf '{"Replace":{"%s/zz_verif_common_test.go":"%s/inpkg/common_inpkg_test.go","%s/zz_verif_%s_test.go":"%s/inpkg/%s_inpkg_test.go"}}' \
+     "$REPO" "$HERE" "$REPO" "$LOWER" "$HERE" "$LOWER" > "$OV"
+  ( cd "$REPO" && go test -tags verif -vet=off -overlay "$OV" -count=1 -timeout 30m -run "^TestVerif$ID\$" . ) > "$VERIF_OUT/logs/$ID.inpkg.log" 2>&1
+  rm -f "$OV"
+  if [ -f "$VERIF_INPKG_OUT" ]; then export VERIF_INPKG_RESULT="$VERIF_INPKG_OUT"; else echo "in-package monitor for $ID did not produce a result (see $VERIF_OUT/logs/$ID.inpkg.log): counted inconclusive" >&2; fi
+fi
+
 RACE=""
 case "$ID" in C13) RACE="-race";; esac
 BIN="$HERE/bin/check.$TAG${RACE:+.race}"
